@@ -33,9 +33,10 @@ def correspondence(ctx):
     rng = ctx.rng("corr")
     quick = ctx.tier == "quick"
     scenes = []
-    for kind, N, psf, opts in RC.standard_configs(rng, ctx.tier, sizes=[(16, 5), (19, 7)] if quick else None):
+    ALL = EXT + ["sersic_pointsource", "pointsource"]
+    for ci, (kind, N, psf, opts) in enumerate(RC.standard_configs(rng, ctx.tier, sizes=[(16, 5), (19, 7), (15, 4)] if quick else None)):
         for i in range(3 if quick else 10):
-            scenes.append(RC.gen_scene(rng, kind, N, psf, types=[EXT[(i + N) % 5]], mode="single", **opts))
+            scenes.append(RC.gen_scene(rng, kind, N, psf, types=[ALL[(3 * ci + i) % 7]], mode="single", **opts))
     dis, stats = RC.render_tie(ctx, scenes)
     # the direct decomposition: Lean model vs real sersic_gauss_decomp at random (n, r_eff, flux), float64
     cases = [(float(rng.uniform(0.65, 8)), float(rng.uniform(0.5, 20)), float(rng.uniform(1, 1000))) for _ in range(6 if quick else 60)]
@@ -94,7 +95,14 @@ def gen_cases(ctx, n_per_kind):
         for i in range(n_per_kind):
             N = int(rng.choice([48, 64]))
             t = EXT[i % 5]
-            psf = [RC.gauss_psf(11, float(rng.uniform(1.1, 1.6))), RC.smooth_asym_psf(rng, 11), RC.gauss_psf(13, 1.3, q=0.85)][i % 3]
+            if kind == "pixel" and t == "dev":
+                t = "sersic"          # the pixel renderer's tolerance is stated for n ≤ 2.5; `dev` fixes n = 4
+            # odd and even square stamps (an even stamp is centred on its geometric centre, between pixels)
+            j = (i + (i // 5)) % 5
+            if kind == "pixel" and j in (2, 4):
+                j -= 2                # the 2 % pixel tolerance is calibrated on stamps that need no half-pixel shift (odd sizes)
+            psf = [RC.gauss_psf(11, float(rng.uniform(1.1, 1.6))), RC.smooth_asym_psf(rng, 11), RC.gauss_psf(12, float(rng.uniform(1.1, 1.6))),
+                   RC.gauss_psf(13, 1.3, q=0.85), RC.smooth_asym_psf(rng, 12)][j]
             nr = (0.8, 2.5) if kind == "pixel" else (0.8, 6.0)
             sc = RC.gen_scene(rng, kind, N, psf, types=[t], mode="single", suffix="", pos_styles=("frac",), n_range=nr)
             p = sc["params"]
@@ -106,7 +114,39 @@ def gen_cases(ctx, n_per_kind):
             p["flux"] = float(rng.uniform(50, 500))
             lo, hi = (N // 2 - 5, N // 2 + 4)
             p["xc"], p["yc"] = float(rng.uniform(lo, hi)), float(rng.uniform(lo, hi))
-            cases.append(RC.cast32_scene(sc))
+            sc = RC.cast32_scene(sc)
+            sc["gaussian_psf"] = j in (0, 2, 3)
+            cases.append(sc)
+        # the two profile types with a point source ("for all profile types"): circular Gaussian PSF of known width, so that the
+        # point source has an analytic reference. The pixel renderer interpolates the stamp bilinearly at the sub-pixel offset between
+        # (xc, yc) and the stamp's geometric centre (up to 15 % of the peak for these widths — its documented approximation); with an
+        # odd stamp and an integer centre no interpolation takes place, and the property's pixel tolerance applies.
+        for i in range(max(2, n_per_kind // 2)):
+            N = int(rng.choice([48, 64]))
+            t = ["sersic_pointsource", "pointsource"][i % 2]
+            sig = float(rng.uniform(1.1, 1.6))
+            size = int(rng.choice([11, 13])) if kind == "pixel" else int(rng.choice([11, 12, 13]))
+            psf = RC.gauss_psf(size, sig)
+            nr = (0.8, 2.5) if kind == "pixel" else (0.8, 6.0)
+            sc = RC.gen_scene(rng, kind, N, psf, types=[t], mode="single", suffix="", pos_styles=("frac",), n_range=nr)
+            p = sc["params"]
+            for k in p:
+                if k.startswith("r_eff"):
+                    p[k] = float(rng.uniform(1.5 if kind == "pixel" else 1.0, N / 12))
+                if k.startswith("ellip"):
+                    p[k] = float(rng.uniform(0, 0.8))
+            p["flux"] = float(rng.uniform(50, 500))
+            if "f_ps" in p:
+                p["f_ps"] = float(rng.uniform(0.05, 0.7))
+            lo, hi = (N // 2 - 5, N // 2 + 4)
+            if kind == "pixel":
+                p["xc"], p["yc"] = float(rng.integers(lo, hi)), float(rng.integers(lo, hi))
+            else:
+                p["xc"], p["yc"] = float(rng.uniform(lo, hi)), float(rng.uniform(lo, hi))
+            sc = RC.cast32_scene(sc)
+            sc["gaussian_psf"] = True
+            sc["psf_sigma"] = sig
+            cases.append(sc)
     return cases
 
 
@@ -121,10 +161,21 @@ def oracle_child(payload):
             R = RC.build_renderer(sc)
             J = {k: jnp.float32(v) for k, v in P.items()}
             img = np.asarray(R.render_source(J, t), dtype=np.float64)
-            ref = RC.reference_image(N, sc["psf"], t, P)
+            if t in ("sersic_pointsource", "pointsource"):
+                # analytic point source (circular Gaussian PSF of known width) + the reference of the Sersic part
+                yy, xx = np.mgrid[:N, :N].astype(float)
+                sg = sc["psf_sigma"]
+                fps = P["flux"] * P["f_ps"] if t == "sersic_pointsource" else P["flux"]
+                ref = fps * np.exp(-((xx - P["xc"]) ** 2 + (yy - P["yc"]) ** 2) / (2 * sg ** 2)) / (2 * np.pi * sg ** 2)
+                ns = [1.0]
+                if t == "sersic_pointsource":
+                    ref = ref + RC.reference_image(N, sc["psf"], "sersic", dict(P, flux=P["flux"] * (1 - P["f_ps"])))
+                    ns = [P["n"]]
+            else:
+                ref = RC.reference_image(N, sc["psf"], t, P)
+                ns = [c["n"] for c in RC.extended_components(t, P) if c["flux"] > 0]
             peak, tot = float(ref.max()), float(np.abs(ref).sum())
             dmax, l1 = float(np.abs(img - ref).max()) / peak, float(np.abs(img - ref).sum()) / tot
-            ns = [c["n"] for c in RC.extended_components(t, P) if c["flux"] > 0]
             if kind == "pixel":
                 tm, tl = 0.02, 0.02
             elif max(ns) <= 4:
@@ -179,9 +230,6 @@ def oracle_run(ctx, scenes):
 def residual(ctx):
     quick = ctx.tier == "quick"
     scenes = gen_cases(ctx, 5 if quick else 60)
-    # mark which PSFs are Gaussian (hybrid-vs-Fourier clause applies to those)
-    for i, s in enumerate(scenes):
-        s["gaussian_psf"] = (i % 5 % 3 != 1)
     viol = oracle_run(ctx, scenes)
     tb = run_children("c04", "table_child", [dict(knots=list(range(2, 37, 5 if quick else 1)))], x64=True)[0]
     if not tb["worst"] <= 1e-3:
